@@ -63,6 +63,11 @@ Theorem C25_iroot_zero : forall n, iroot 0 n = Ok (0, true).
 Proof. exact iroot_zero. Qed.
 Print Assumptions C25_iroot_zero.
 
+(** negative x is rejected (ValueError), as gmpy2.iroot does (stub repaired by /repo commit 15b125f) *)
+Theorem C25_iroot_domain : forall x n, x < 0 -> iroot x n = EValue.
+Proof. exact iroot_domain. Qed.
+Print Assumptions C25_iroot_domain.
+
 (** ---- jacobi / legendre / kronecker ---- *)
 Theorem C25_jacobi_domain : forall x y, ~ (0 < y /\ Z.odd y = true) -> jacobi x y = EValue.
 Proof. exact jacobi_domain. Qed.
@@ -178,7 +183,7 @@ Example C25_nonvacuous_gcdext : gcdext 240 (-46) = Ok (2, -9, -47) /\ gcdext (-6
 Proof. vm_compute. repeat split; reflexivity. Qed.
 Example C25_nonvacuous_invert : invert 7 (-40) = Ok 23 /\ invert 6 9 = EZeroDiv /\ invert 5 0 = EZeroDiv.
 Proof. vm_compute. repeat split; reflexivity. Qed.
-Example C25_nonvacuous_roots : iroot 1000 3 = Ok (10, true) /\ iroot 999 3 = Ok (9, false) /\
+Example C25_nonvacuous_roots : iroot 1000 3 = Ok (10, true) /\ iroot 999 3 = Ok (9, false) /\ iroot (-8) 3 = EValue /\
   is_square 144 = Ok true /\ isqrt 99 = Ok 9 /\ powmod 3 200 1000 = Ok 1.
 Proof. vm_compute. repeat split; reflexivity. Qed.
 Example C25_nonvacuous_jacobi : jacobi 1001 9907 = Ok (-1) /\ jacobi 21 7 = Ok 0 /\ kronecker 5 (-12) = Ok (-1) /\
